@@ -529,12 +529,15 @@ def addr_base58_to_pubkeyhash(address, as_hex=False):
     :return bytes, str: Public Key Hash
     """
 
+    address_str = address
     try:
         address = change_base(address, 58, 256, 25)
     except EncodingError as err:
         raise EncodingError("Invalid address %s: %s" % (address, err))
     if len(address) != 25:
         raise EncodingError("Invalid address hash160 length, should be 25 characters not %d" % len(address))
+    if isinstance(address_str, str) and base58encode(address) != address_str:
+        raise EncodingError("Invalid address %s: not the canonical Base58 encoding of its payload" % address_str)
     check = address[-4:]
     pkh = address[:-4]
     checksum = double_sha256(pkh)[0:4]
